@@ -1,15 +1,21 @@
 #!/bin/sh
-# tools/try_seed.sh <ID> [<worktree>] [tier] [extra check ids...]
+# tools/try_seed.sh <ID> [<worktree> [tier [extra check ids...]]]
 # Runs ./check <ID> against a scratch worktree of golua that has a seeded
 # change applied (uncommitted), using a scratch copy of /verif whose go.mod
 # points at that worktree. /repo itself is not touched.
-id=$1; wt=${2:-/tmp/seed-$id}; tier=${3:-quick}
-shift; shift 2>/dev/null; shift 2>/dev/null
+id=$1
+wt=${2:-/tmp/seed-$id}
+tier=${3:-quick}
+[ $# -gt 0 ] && shift
+[ $# -gt 0 ] && shift
+[ $# -gt 0 ] && shift
 scratch=/tmp/vs-$id
-rm -rf "$scratch"; mkdir -p "$scratch"
+rm -rf "$scratch"
+mkdir -p "$scratch"
 rsync -a --exclude bin --exclude replays --exclude .git /verif/ "$scratch"/
 sed -i "s#=> /repo#=> $wt#" "$scratch/go.mod"
 for c in $id "$@"; do
-  (cd "$scratch" && ./check $c --tier $tier > "$scratch/check-$c.log" 2>&1; echo "check $c (tier $tier) against $wt: exit $? ; $(grep -c '^VIOLATION' "$scratch/check-$c.log") violation line(s)")
+  (cd "$scratch" && ./check $c --tier $tier > "$scratch/check-$c.log" 2>&1
+   echo "check $c (tier $tier) against $wt: exit $? ; $(grep -c '^VIOLATION' "$scratch/check-$c.log") violation line(s)")
   grep -A6 '^VIOLATION' "$scratch/check-$c.log" | head -24
 done
